@@ -433,12 +433,16 @@ def save_score_midi(
                 m_ts = part.time_signature_map(measure.start.t)
                 if m_duration_beat != m_ts[0]:
                     # add ts change
-                    # TODO: add support for changing the beat type if number of beats is not integer
+                    # if the number of beats is not integer, halve the beat
+                    # (a time signature with 0 beats is not valid)
+                    m_beats, m_beat_type = m_duration_beat, int(m_ts[1])
+                    while m_beats != int(m_beats) and m_beat_type < 128:
+                        m_beats, m_beat_type = 2 * m_beats, 2 * m_beat_type
                     meta_events[part][to_ppq(measure.start.t)].append(
                         MetaMessage(
                             "time_signature",
-                            numerator=int(m_duration_beat),
-                            denominator=int(m_ts[1]),
+                            numerator=int(m_beats),
+                            denominator=m_beat_type,
                         )
                     )
                     irregular_measure_time.append(
